@@ -48,6 +48,20 @@ void *memchr(const void *s, int c, size_t n) {
 }
 #endif
 
+/* Fixed-capacity stand-in for bstr_dup_mem, exchanged at the call sites with goto-instrument --replace-calls where the copy's
+ * length is symbolic AND the copy is then rewritten in place (a symbolic-size heap object plus writes does not encode).
+ * One allocation that may fail, an inline bstr with len == size == n, byte-identical copy: the ownership behaviour of the
+ * real function (which unit c13_dup_model_lemma compares with the same model). */
+#if defined(C18_DUPCAP) && !defined(VNATIVE)
+bstr *c18_bstr_dup_mem(const void *data, size_t len) {
+  __CPROVER_assert(len <= C18_DUPCAP && __CPROVER_r_ok(data, len), "dup: source readable, length within the model capacity");
+  bstr *b = malloc(sizeof(bstr) + C18_DUPCAP); if (b == NULL) return NULL;
+  b->len = len; b->size = len; b->realptr = NULL;
+  for (size_t i = 0; i < C18_DUPCAP; i++) if (i < len) ((unsigned char *) b + sizeof(bstr))[i] = ((const unsigned char *) data)[i];
+  return b;
+}
+#endif
+
 /* htp_validate_hostname (pure, allocation-free; its memcpy with a symbolic length out of a symbolic-size heap object does
  * not encode: 23 GB at 3 input bytes) is exchanged at its call sites with goto-instrument --replace-calls by this stand-in:
  * it requires the argument to be a LIVE bstr (so a freed host name is still caught) and answers arbitrarily. */
